@@ -10,6 +10,7 @@ first evaluation fails.  Every creation order of the blocks is executed.
 """
 
 import asyncio
+import collections.abc
 import datetime as _dt
 import itertools
 
@@ -96,6 +97,8 @@ def model(spec, order):
         p = b.get('persist')
         if not p or not p['stored']:
             return False
+        if spec.get('read_fail') == b['name']:
+            return False    # the storage cannot read the record: logged, next source
         exp = p['expiration']
         if exp is not None:
             if exp <= 0:
@@ -215,8 +218,18 @@ def run_order(spec, order, ctx):
                 def func(vp=vp, cnt=cnt):
                     return edzed.UNDEF if next(cnt) < vp['undef'] else 'value'
                 kw = {'initdef': 'vp-default'} if vp['initdef'] else {}
+                if vp.get('to_oa'):
+                    # every polled value goes to an output block, the first one at the very
+                    # first step of the polling task
+                    kw['on_output'] = edzed.Event('oa', 'put')
                 objs['#vp'] = edzed.ValuePoll('vp', func=func, interval=vp['interval'],
                                               init_timeout=vp['timeout'], **kw)
+                continue
+            if name == '#oa':
+                async def oacoro(value):
+                    hist.log('oa_run', value)
+                objs['#oa'] = edzed.OutputAsync('oa', coro=oacoro, mode='wait', on_error=None,
+                                                stop_timeout=2)
                 continue
             if name == '#ia':
                 ia = spec['lib']['initasync']
@@ -302,6 +315,34 @@ def run_order(spec, order, ctx):
         if spec['stop_time']:
             storage['edzed-stop-time'] = holder['clock'].peek_time() - DOWNTIME
         storage['foreign-key'] = 1
+        if spec.get('read_fail'):
+            badkey = str(objs[spec['read_fail']])
+
+            class FailingStorage(collections.abc.MutableMapping):
+                """A real mapping class (get(), pop() ... built on the primitives) whose
+                back-end fails to read one record."""
+                def __init__(self, init):
+                    self._d = dict(init)
+
+                def __getitem__(self, key):
+                    if key == badkey:
+                        hist.log('storage_read_error', key)
+                        raise OSError(f"vf: record {key!r}: checksum error")
+                    return self._d[key]
+
+                def __setitem__(self, key, value):
+                    self._d[key] = value
+
+                def __delitem__(self, key):
+                    del self._d[key]
+
+                def __iter__(self):
+                    return iter(self._d)
+
+                def __len__(self):
+                    return len(self._d)
+            storage = FailingStorage(storage)
+            ctx.count('storage_read_failures')
         circuit.set_persistent_data(storage)
         t0 = loop.time()
         simtask = asyncio.create_task(circuit.run_forever(), name='vf: simtask')
@@ -606,6 +647,9 @@ def random_spec(rng, quick):
     spec = {'blocks': blocks, 'stop_time': rng.random() < 0.8, 'lib': {}}
     if rng.random() < 0.3:
         spec['konst'] = True
+    stored = [b['name'] for b in blocks if b.get('persist') and b['persist']['stored']]
+    if stored and rng.random() < 0.15:
+        spec['read_fail'] = rng.choice(stored)
     extra = []
     r = rng.random()
     if r < 0.15:
@@ -614,6 +658,9 @@ def random_spec(rng, quick):
                                     'timeout': rng.choice([2.5, 5.0]) if undef < 100 else 0.5,
                                     'initdef': rng.random() < 0.6}
         extra.append('#vp')
+        if rng.random() < 0.5:
+            spec['lib']['valuepoll']['to_oa'] = True
+            extra.append('#oa')
     elif r < 0.3:
         tau = rng.choice([0.3, 1.2, 60.0])
         spec['lib']['initasync'] = {'tau': tau, 'timeout': rng.choice([tau + 0.5, 5.0]) if tau < 60
